@@ -10,14 +10,51 @@ def n(tier, quick, thorough):
     return quick if tier == Q else thorough
 
 
+def directed(v, prop):
+    """Replay the directed cases of this property first (one per repaired or recorded defect):
+    a regression of a repaired defect is reported at once, a recorded one is shown to be still there."""
+    import glob
+    import os
+    import subprocess
+    from common import HARNESS_BIN, VERIF, clean_env
+    for path in sorted(glob.glob(os.path.join(VERIF, "cases", prop, "*.case"))):
+        name = os.path.basename(path)[:-5]
+        try:
+            p = subprocess.run([HARNESS_BIN, "replay", "--prop", prop, path], env=clean_env(), stdout=subprocess.PIPE, stderr=subprocess.PIPE, timeout=30)
+            rc, out = p.returncode, p.stdout.decode("utf-8", "replace")
+        except subprocess.TimeoutExpired:
+            rc, out = "timeout", ""
+        v.evaluations += 1
+        v.count("directed-cases-replayed")
+        if rc == 0:
+            continue
+        if rc == 1:
+            for l in out.splitlines():
+                if l.startswith("VIOLATED "):
+                    head, _, detail = l.partition(" :: ")
+                    sigtxt = head.split(" ", 2)[2] if len(head.split(" ", 2)) > 2 else ""
+                    sig = {"engine": "harness", "directed": name}
+                    for kv in sigtxt.split(";"):
+                        if "=" in kv:
+                            a, b = kv.split("=", 1)
+                            sig[a] = b
+                    v.violation(sig, "directed case " + name + ": " + detail, payload={"engine": "harness", "case_file": path}, files={"case.txt": open(path).read()})
+        else:
+            cls = {"timeout": "no-termination-within-watchdog", 86: "giant-allocation-request"}.get(rc, "process-abort")
+            v.violation({"engine": "harness", "directed": name, "class": cls}, "directed case " + name + " ends with " + str(rc), payload={"engine": "harness", "case_file": path},
+                        files={"case.txt": open(path).read()})
+
+
 def lib_c01(v, tier, seed):
     build_harness()
+    directed(v, "C01")
     run_gen(v, "C01", "pair-exhaustive", seed, 10**9, param=n(tier, 3, 4))
     run_gen(v, "C01", "pair", seed, n(tier, 600_000, 12_000_000))
 
 
 def lib_c02(v, tier, seed):
     build_harness()
+    directed(v, "C02")
     m = run_gen(v, "C02", "place-exhaustive", seed, 10**10, param=n(tier, 5, 6))
     v.extra["exhaustive_space"] = {"generator": "place-exhaustive", "size": m["space_total"], "evaluated": m["evaluations"]}
     run_gen(v, "C02", "drift", seed, n(tier, 1_500_000, 30_000_000))
@@ -26,6 +63,7 @@ def lib_c02(v, tier, seed):
 
 def lib_c03(v, tier, seed):
     build_harness()
+    directed(v, "C03")
     run_gen(v, "C03", "two", seed, n(tier, 2_000_000, 40_000_000))
     run_gen(v, "C03", "drift", seed, n(tier, 1_000_000, 20_000_000))
     run_gen(v, "C03", "stack", seed, n(tier, 300_000, 5_000_000))
@@ -33,6 +71,7 @@ def lib_c03(v, tier, seed):
 
 def lib_c04(v, tier, seed):
     build_harness()
+    directed(v, "C04")
     run_gen(v, "C04", "stack", seed, n(tier, 1_000_000, 20_000_000))
     run_gen(v, "C04", "two", seed, n(tier, 1_000_000, 20_000_000))
     run_gen(v, "C04", "drift", seed, n(tier, 600_000, 10_000_000))
@@ -41,6 +80,7 @@ def lib_c04(v, tier, seed):
 
 def lib_c11(v, tier, seed):
     build_harness()
+    directed(v, "C11")
     m = run_gen(v, "C11", "vocab", seed, 10**10, param=n(tier, 4, 5))
     v.extra["exhaustive_space"] = {"generator": "vocab (all sequences of <= %d lines over a %d-line vocabulary, with/without final newline)" % (n(tier, 4, 5), 28),
                                    "size": m["space_total"], "evaluated": m["evaluations"]}
@@ -52,6 +92,7 @@ def lib_c11(v, tier, seed):
 
 def lib_c12(v, tier, seed):
     build_harness()
+    directed(v, "C12")
     run_gen(v, "C12", "corpus", seed, 10**6)
     run_gen(v, "C12", "valid", seed, n(tier, 600_000, 10_000_000))
     run_gen(v, "C12", "mutant", seed, n(tier, 1_000_000, 20_000_000))
